@@ -5,19 +5,28 @@ NEEDS_KNUT = True
 
 RULE = ("generated accepted journals with 2-5 commodities and price histories (sparse/dense, direct, inverse, chained via USD), "
         "positions through zero, liabilities, accruals; about 12% with a price declaration removed; valued `knut balance -v V --csv -a` "
-        "with cumulative columns, random window start, --close on/off.  Spec verdict: every cell of every asset/liability account "
-        "must lie within n_steps*1e-8 of sum_c Q_T(a,c)*p_T(c) - sum_c Q_(W-1)*p_(W-1) computed by Spec.ValuationSpec from the flat "
-        "bookings and the dated price declarations; if some booking needs a price that does not exist on its day the command must "
-        "fail (no report).  The model's CSV must be byte-identical.  Non-trivial: valued report produced with at least 2 price "
-        "declarations of one commodity; distinct by input.")
+        "with cumulative columns, random window start, --close on/off; every third case with one or two `-m level[:1][,regex]` rules "
+        "(levels 1-3, level 0 behind a regex) and/or `--remap regex` over the journal's account names.  Spec verdict: every row of the "
+        "asset/liability section on which an asset/liability account of the journal lands (itself, or the row remap and the first "
+        "matching mapping rule send it to) must lie, in every column, within the summed allowance (sum over the accounts that land on "
+        "the row, Spec.MarkToMarketMappedSpec.sources_of, of ValuationSpec.step_bound) * 1e-8 of the summed expectation (sum of "
+        "ValuationSpec.mtm_expected = sum_c Q_T(a,c)*p_T(c) - sum_c Q_(W-1)*p_(W-1), from the flat bookings and the dated price "
+        "declarations): Spec.ValuationMappedSpec.mtm_row_mapped; an empty cell counts as 0, a row that is not printed as 0 in every "
+        "column; an expectation that is undefined although a report was printed is a failure (C03_expected_defined); if some booking "
+        "needs a price that does not exist on its day the command must fail (no report).  The model's CSV must be byte-identical.  "
+        "Non-trivial: valued report produced with at least 2 price declarations of one commodity; distinct by input.  The evidence "
+        "counts the rows evaluated (plain / aggregated or moved), the rows not printed, and the rows left out.")
 TRUSTED_BASE = [
-    "Coq 8.16.1 kernel", "extraction + OCaml driver drv_c03.ml (locates an account's row by its last segment in the A/L section)",
+    "Coq 8.16.1 kernel", "extraction + OCaml driver drv_c03.ml (finds the printed line of a row: the CSV shows last segments in tree "
+    "order; full paths are rebuilt from the order and the set of possible rows, else rows are found by a unique last segment)",
     "harness journal.go/knutrun.go/c03.go", "Spec/ValuationSpec.v uses prices_insert/normalize (proved against declarations in C12)",
     "Model/*.v hand-written; byte-identical CSV on every run",
 ]
-ASSUMPTIONS = ["accounts with ambiguous last segments inside the A/L section are skipped by the spec verdict",
-               "the truncation allowance n_steps is an upper bound (bookings on the account in the window + days x held commodities + 1); "
-               "that the model's row stays within it is proved (C03_model_meets_spec)"]
+ASSUMPTIONS = ["when the full paths of the printed rows cannot be rebuilt unambiguously, rows whose last segment is not unique in the "
+               "A/L section are skipped by the spec verdict (counted in the evidence: rows_skipped_ambiguous_name)",
+               "the truncation allowance is an upper bound (per account that lands on the row: bookings on the account in the window "
+               "+ days x held commodities + 1); that the model's row stays within it is proved (C03_model_meets_spec, "
+               "C03_model_meets_spec_mapped)"]
 TECHNIQUE = ("Coq: Abel-summation and truncation lemmas about an executable model of Valuate/ComputePrices; closed-form mark-to-market "
              "specification evaluated on the binary's CSV; byte-exact model/implementation correspondence")
 LEVEL_TEXT = ("Proved (Coq, closed under the global context): (1) end to end over days, for the Valuate stage from its initial state over any "
@@ -46,13 +55,29 @@ LEVEL_TEXT = ("Proved (Coq, closed under the global context): (1) end to end ove
               "condition): a row b of asset/liability type shows the sum over the accounts of the journal that land on it (remap, then the "
               "first matching mapping rule; pass --account) of their mark-to-market changes, up to the sum of their step counts; the list "
               "of these accounts is executable (sources_of, C03_sources_of); remap and shorten keep an account valid and in its class "
-              "(C03_lands_class), so CloseAccounts and the Income mirrors never reach such a row.")
-LEVEL_NOTE = ("Trusted: kernel, extraction, harness, hand-written model (sampled tie). Side conditions of the report theorems: posting accounts "
-              "syntactically valid (postings_syntactic, the parser's guarantee as in C02/C04/C05), the account is shown as itself (no "
-              "--mapping/--remap rule moves it or another account onto it) and passes the filters, non-empty window, column = a period end. Not proved (decided per "
-              "run by the closed form on the binary's cells): the printed, collapsed row text (row_value is the sum of the tree's cells over "
-              "the held commodities); that mtm_expected is Some whenever the run succeeds.  The generator of this check uses no --mapping/--remap: "
-              "the theorem on aggregated rows (C03_windowed_mapped) is not yet evaluated on the binary's rows by the spec verdict.")
+              "(C03_lands_class), so CloseAccounts and the Income mirrors never reach such a row. (5) The expectation is defined "
+              "(C03_expected_defined, C03_held_price_every_day): if the command succeeds then on every date T every commodity other than V "
+              "of which an asset/liability account holds a non-zero quantity has a price from the declarations dated <= T (the run over "
+              "the days dated <= T is a prefix of the successful run, a non-zero position is revalued every day and a non-zero booking "
+              "valued on its day, both fail without a price), hence market_value, mtm_expected for every window start and date, and "
+              "every entry of mtm_row are Some for every asset/liability account with a valid name -- no condition on mapping, filters or "
+              "window; for the accounts the check visits (al_accounts) the parser's guarantee is the only side condition.  The corner "
+              "the definition respects is exhibited (C03_held_commodity_has_price_refuted): a commodity booked only with quantity zero is "
+              "held, never priced, the command succeeds; market_value skips zero quantities. (6) The verdict on aggregated rows holds of "
+              "the model (C03_model_meets_spec_mapped): for every row b of asset/liability type, whatever --mapping and --remap do, "
+              "Spec.ValuationMappedSpec.mtm_row_mapped exists, lists the accounts the row adds up, every entry carries an expectation, and "
+              "the model's row (sum of the node's cells over any duplicate-free list of commodities that contains what the aggregated "
+              "accounts hold) is within sum step_bound * 1e-8 of sum mtm_expected, so within_bound accepts it; behind it "
+              "C03_windowed_mapped_held (each account charged for its own commodities) and C03_unbooked_cell (a cell without a booking of "
+              "a non-zero quantity receives no value: the instance quantity = 0, error = 0 of the cell invariant).")
+LEVEL_NOTE = ("Trusted: kernel, extraction, harness, hand-written model (sampled tie), and the driver's way of finding the printed line of "
+              "a row (see TRUSTED_BASE). Side conditions of the report theorems: posting accounts syntactically valid (postings_syntactic, "
+              "the parser's guarantee as in C02/C04/C05), the row is of asset/liability type with a valid name, the commodities pass "
+              "--commodity (the generator of this check sets no --account/--commodity filter), non-empty window, column = a period end; "
+              "the per-account theorems (C03_windowed, C03_model_meets_spec) in addition: the account is shown as itself. Not proved "
+              "(decided per run by the closed form on the binary's cells): the printed, collapsed row text (row_value is the sum of the "
+              "tree's cells over the commodities).  Measured with the mutation `ComputePrices hands a day the prices of the day before`: "
+              "199 of 400 cases fail the verdict, 21 of them first on an aggregated or moved row.")
 
 def plan(tier, seed):
     if tier == "quick":
@@ -64,6 +89,21 @@ def search_plan(seed):
     return [("C03", seed + 100 + k, 1500, []) for k in range(3)]
 
 
+SEP = " ##C03 "
+
+
+def compare(c):
+    """the driver appends its row counts to the model's CSV (after SEP); the CSV itself must be byte-identical"""
+    return (c.model or "").split(SEP)[0] == c.observed
+
+
+def _counts(c):
+    parts = (c.model or "").split(SEP)
+    if len(parts) < 2:
+        return {}
+    return {k: int(v) for k, v in (kv.split("=") for kv in parts[1].split())}
+
+
 def nontrivial(c):
     if not c.observed.startswith("OK "):
         return False
@@ -72,11 +112,30 @@ def nontrivial(c):
 
 
 def distribution(cases):
-    d = {"ok": 0, "err": 0, "from_set": 0, "close": 0, "intervals": {}}
+    d = {"ok": 0, "err": 0, "from_set": 0, "close": 0, "intervals": {}, "with_mapping": 0, "with_remap": 0,
+         "mapped_reports": 0,
+         # rows of the A/L section the spec verdict evaluated / left out (see drv_c03.ml):
+         "rows_checked_plain": 0, "rows_checked_aggregated_or_moved": 0, "cases_with_aggregated_rows_checked": 0,
+         "rows_not_printed_checked_as_zero": 0, "rows_skipped_ambiguous_name": 0, "rows_skipped_no_source": 0,
+         "rows_skipped_source_not_AL": 0, "expectations_undefined": 0, "reports_rows_located_by_path": 0}
     for c in cases:
-        d["ok" if c.observed.startswith("OK") else "err"] += 1
+        ok = c.observed.startswith("OK")
+        d["ok" if ok else "err"] += 1
         cfg = dict(kv.split("=", 1) for kv in c.input.split(" | ")[0].split())
         d["from_set"] += cfg["from"] != "-"
         d["close"] += cfg["close"] == "1"
         d["intervals"][cfg["iv"]] = d["intervals"].get(cfg["iv"], 0) + 1
+        d["with_mapping"] += cfg["map"] != "-"
+        d["with_remap"] += cfg["remap"] != "-"
+        d["mapped_reports"] += ok and (cfg["map"] != "-" or cfg["remap"] != "-")
+        k = _counts(c)
+        d["rows_checked_plain"] += k.get("plain", 0)
+        d["rows_checked_aggregated_or_moved"] += k.get("mapped", 0)
+        d["cases_with_aggregated_rows_checked"] += k.get("mapped", 0) > 0
+        d["rows_not_printed_checked_as_zero"] += k.get("absent", 0)
+        d["rows_skipped_ambiguous_name"] += k.get("ambiguous", 0)
+        d["rows_skipped_no_source"] += k.get("nosrc", 0)
+        d["rows_skipped_source_not_AL"] += k.get("nonal", 0)
+        d["expectations_undefined"] += k.get("undefined", 0)
+        d["reports_rows_located_by_path"] += k.get("bypath", 0)
     return d
